@@ -171,12 +171,15 @@ func (r *request) buildHTTP(mediaType, basePath string, producers map[string]run
 						// Need to read the data so that we can detect the content type
 						const contentTypeBufferSize = 512
 						buf := make([]byte, contentTypeBufferSize)
-						size, err := fi.Read(buf)
-						if err != nil && err != io.EOF {
+						// fill the sniffing window even when the reader delivers short reads;
+						// a file shorter than the window is not an error
+						size, err := io.ReadFull(fi, buf)
+						if err != nil && err != io.EOF && err != io.ErrUnexpectedEOF {
 							logClose(err, pw)
 							return
 						}
-						fileContentType = http.DetectContentType(buf)
+						// only sniff the bytes actually read, not the zero padding
+						fileContentType = http.DetectContentType(buf[:size])
 						fi = runtime.NamedReader(fi.Name(), io.MultiReader(bytes.NewReader(buf[:size]), fi))
 					}
 
